@@ -65,8 +65,8 @@ def apply_layout(a, lay):
         if not ones:
             return a
         k = ones[0]
-        core = np.ascontiguousarray(np.squeeze(a, axis=k))
-        return np.expand_dims(core, k) if False else core[(slice(None),) * k + (None,)]
+        core = np.array(np.squeeze(a, axis=k), copy=True, order="C")  # (keeps 0-d as 0-d)
+        return core[(slice(None),) * k + (None,)]
     if lay == "offset":
         big = np.zeros((a.size + 3,), dtype=a.dtype)
         big[3:] = a.ravel()
